@@ -176,38 +176,12 @@ theorem leafBuild_agree {hs : Hashes} {extra : List (List String)} {kvs kvs' : K
 
 /-! ### the key mark of the pseudo-body is the key mark of the real body -/
 
-def drsOf (kd : J) (oref : Option J) : Except Err Bool :=
-  match kd with
-  | .str "ReplicaSet" =>
-      (match oref with
-       | none => .ok false
-       | some (.arr owners) => anyDeployment owners
-       | some _ => .error .unmodelled)
-  | _ => .ok false
-
 theorem isDRS_of {kvs : Kvs} {kd : J} (hk : lookup "kind" kvs = some kd) :
-    (lookup "metadata" kvs = none → isDRS (.obj kvs) = drsOf kd none) ∧
-    (∀ m, lookup "metadata" kvs = some (.obj m) → isDRS (.obj kvs) = drsOf kd (lookup "ownerReferences" m)) := by
+    (lookup "metadata" kvs = none → isDRS (.obj kvs) = drsOf (some kd) none) ∧
+    (∀ m, lookup "metadata" kvs = some (.obj m) → isDRS (.obj kvs) = drsOf (some kd) (lookup "ownerReferences" m)) := by
   constructor
-  · intro hm
-    unfold isDRS drsOf
-    simp only [get?, hk, hm]
-    cases kd with
-    | str s => by_cases hs : s = "ReplicaSet" <;> simp [hs]
-    | _ => rfl
-  · intro m hm
-    unfold isDRS drsOf
-    simp only [get?, hk, hm]
-    cases kd with
-    | str s =>
-      by_cases hs : s = "ReplicaSet"
-      · subst hs
-        simp only []
-        cases lookup "ownerReferences" m with
-        | none => rfl
-        | some o => cases o <;> rfl
-      · simp [hs]
-    | _ => rfl
+  · intro hm; simp only [isDRS, get?, hk, hm]
+  · intro m hm; simp only [isDRS, get?, hk, hm]
 
 theorem lookup_owner_N {l : Kvs} {L : Option J} {A : Option Kvs} (h : lookup "metadata" l = N L A) :
     lookup "metadata" l = none ∨ ∃ mm, lookup "metadata" l = some (.obj mm) ∧ lookup "ownerReferences" mm = none := by
